@@ -612,26 +612,39 @@ impl Exec {
         if !unexplained.is_empty() && !explain(&unexplained, &gets) {
             // classify the leak so that a listed finding can be told from any other leak
             let set: HashSet<usize> = unexplained.iter().copied().collect();
-            let whole_rows = unexplained
+            // frames in entirely-set rows of the huge frame of an in-flight partial free: the
+            // transient fill of the listed finding; whatever remains must be explained by the
+            // in-flight allocations as usual
+            let split_huge: Vec<usize> = self
+                .inflight
                 .iter()
-                .all(|f| (f / 64 * 64..f / 64 * 64 + 64).all(|g| set.contains(&g)));
-            let stale_split = self.inflight.iter().any(|i| match i {
-                Some(InFlight::Put { block }) if block.order < llfree::HUGE_ORDER => {
-                    let h = block.frame / HUGE_FRAMES;
-                    unexplained.iter().all(|f| f / HUGE_FRAMES == h)
-                }
-                _ => false,
-            });
-            let pattern = if whole_rows && stale_split {
+                .filter_map(|i| match i {
+                    Some(InFlight::Put { block }) if block.order < llfree::HUGE_ORDER => Some(block.frame / HUGE_FRAMES),
+                    _ => None,
+                })
+                .collect();
+            let is_fill = |f: &usize| {
+                split_huge.contains(&(f / HUGE_FRAMES))
+                    && (f / 64 * 64..f / 64 * 64 + 64).all(|g| set.contains(&g))
+            };
+            let rest: Vec<usize> = unexplained.iter().copied().filter(|f| !is_fill(f)).collect();
+            let stale_fill = rest.len() < unexplained.len() && (rest.is_empty() || explain(&rest, &gets));
+            let pattern = if stale_fill {
                 "whole free rows of the huge frame of an in-flight partial free are set (fill attempt of partial_put_huge after a stale huge-marker read)"
             } else {
                 "other"
             };
             return Err((
                 format!(
-                    "frames {:?}{} were free, are touched by no in-flight call, but are allocated after recovery; pattern: {pattern}; in-flight={:?}",
+                    "frames {:?}{} ({} frames in rows {:?}) were free, are touched by no in-flight call, but are allocated after recovery; pattern: {pattern}; in-flight={:?}",
                     &unexplained[..unexplained.len().min(8)],
                     if unexplained.len() > 8 { "..." } else { "" },
+                    unexplained.len(),
+                    {
+                        let mut rows: Vec<usize> = unexplained.iter().map(|f| f / 64).collect();
+                        rows.dedup();
+                        rows
+                    },
                     self.inflight
                 ),
                 None,
